@@ -113,7 +113,7 @@ theorem absF_parentOf_row {d : Db} (hn : (ids d.pl).Nodup) {r : Row Bytes} (hr :
 
 /-- The removed set `c :: descendants c` is closed under "child of". -/
 theorem gone_closed {d : Db} (hn : (ids d.pl).Nodup) (hpos : ∀ r ∈ d.pl, 0 < r.id) {c : Int} (hc : c ∈ ids d.pl) :
-    ∀ k ∈ cores d.pl, (c :: descendantIds d.pl c).contains k.2.1 = true → (c :: descendantIds d.pl c).contains k.1 = true := by
+    ∀ k ∈ cores d.pl, (c :: descSet d c).contains k.2.1 = true → (c :: descSet d c).contains k.1 = true := by
   intro k hk hkey
   obtain ⟨r, hr, rfl⟩ := mem_cores.mp hk
   simp only [core] at hkey ⊢
@@ -121,12 +121,12 @@ theorem gone_closed {d : Db} (hn : (ids d.pl).Nodup) (hpos : ∀ r ∈ d.pl, 0 <
     simp only [ids, List.mem_map] at hc
     obtain ⟨r0, hr0, e⟩ := hc
     rw [← e]; exact hpos r0 hr0
-  have hkey' : r.key = c ∨ r.key ∈ descendantIds d.pl c := by
+  have hkey' : r.key = c ∨ r.key ∈ descSet d c := by
     simpa [List.contains_cons] using hkey
   have hk0 : r.key ≠ 0 := by
     rcases hkey' with e | e
     · rw [e]; omega
-    · obtain ⟨h1, _⟩ := mem_descendantIds.mp e
+    · obtain ⟨h1, _⟩ := mem_descSet.mp e
       simp only [ids, List.mem_map] at h1
       obtain ⟨r0, hr0, e0⟩ := h1
       have := hpos r0 hr0
@@ -136,16 +136,51 @@ theorem gone_closed {d : Db} (hn : (ids d.pl).Nodup) (hpos : ∀ r ∈ d.pl, 0 <
   have hanc : (absF d).isAncestor c r.id = true := by
     rcases hkey' with e | e
     · rw [← e]; exact Forest.isAncestor_of_parent hpo
-    · exact Forest.isAncestor_trans (mem_descendantIds.mp e).2 (Forest.isAncestor_of_parent hpo)
-  have : r.id ∈ descendantIds d.pl c :=
-    mem_descendantIds.mpr ⟨by simp only [ids, List.mem_map]; exact ⟨r, hr, rfl⟩, hanc⟩
+    · exact Forest.isAncestor_trans (mem_descSet.mp e).2 (Forest.isAncestor_of_parent hpo)
+  have : r.id ∈ descSet d c :=
+    mem_descSet.mpr ⟨by simp only [ids, List.mem_map]; exact ⟨r, hr, rfl⟩, hanc⟩
   simp [List.contains_cons, this]
 
-theorem absF_plRemove {d : Db} (hn : (ids d.pl).Nodup) (hpos : ∀ r ∈ d.pl, 0 < r.id) {c : Int} (hc : c ∈ ids d.pl) :
-    absF (plRemove d c) = Forest.removeSubtree (absF d) c := by
-  have hcores : cores (plRemove d c).pl = (cores d.pl).filter (fun k => !(c :: descendantIds d.pl c).contains k.1) := by
+/-- `G` lists exactly the crate `c` and its descendants (in whatever order the view delivered them). -/
+def IsGone (d : Db) (c : Int) (G : List Int) : Prop := ∀ x, x ∈ G ↔ x = c ∨ x ∈ descSet d c
+
+theorem IsGone.contains {d : Db} {c : Int} {G : List Int} (hG : IsGone d c G) (x : Int) :
+    G.contains x = (c :: descSet d c).contains x := by
+  have h1 := hG x
+  have h2 : x ∈ c :: descSet d c ↔ x = c ∨ x ∈ descSet d c := List.mem_cons
+  cases ha : G.contains x <;> cases hb : (c :: descSet d c).contains x
+  · rfl
+  · have := List.contains_iff_mem.mpr (h1.mpr (h2.mp (List.contains_iff_mem.mp hb)))
+    rw [ha] at this; exact absurd this (by simp)
+  · have := List.contains_iff_mem.mpr (h2.mpr (h1.mp (List.contains_iff_mem.mp ha)))
+    rw [hb] at this; exact absurd this (by simp)
+  · rfl
+
+theorem isGone_cons {d : Db} {c : Int} {l : List Int} (h : ∀ x, x ∈ l ↔ x ∈ descSet d c) : IsGone d c (c :: l) := by
+  intro x; rw [List.mem_cons, h x]
+
+theorem gone_closed' {d : Db} (hn : (ids d.pl).Nodup) (hpos : ∀ r ∈ d.pl, 0 < r.id) {c : Int} (hc : c ∈ ids d.pl)
+    {G : List Int} (hG : IsGone d c G) :
+    ∀ k ∈ cores d.pl, G.contains k.2.1 = true → G.contains k.1 = true := by
+  intro k hk h
+  rw [hG.contains] at h ⊢
+  exact gone_closed hn hpos hc k hk h
+
+theorem cores_plRemove_pl {d : Db} (hn : (ids d.pl).Nodup) (hpos : ∀ r ∈ d.pl, 0 < r.id) {c : Int} (hc : c ∈ ids d.pl)
+    {G : List Int} (hG : IsGone d c G) :
+    cores (plRemove d G).pl = (cores d.pl).filter (fun k => !(c :: descSet d c).contains k.1) := by
+  have : cores (plRemove d G).pl = (cores d.pl).filter (fun k => !G.contains k.1) := by
     unfold plRemove
-    exact cores_foldl_deleteCascade _ _ (gone_closed hn hpos hc)
+    exact cores_foldl_deleteCascade _ _ (gone_closed' hn hpos hc hG)
+  rw [this]
+  apply List.filter_congr
+  intro k _
+  rw [hG.contains]
+
+theorem absF_plRemove {d : Db} (hn : (ids d.pl).Nodup) (hpos : ∀ r ∈ d.pl, 0 < r.id) {c : Int} (hc : c ∈ ids d.pl)
+    {G : List Int} (hG : IsGone d c G) :
+    absF (plRemove d G) = Forest.removeSubtree (absF d) c := by
+  have hcores := cores_plRemove_pl hn hpos hc hG
   unfold absF Forest.removeSubtree
   rw [hcores]
   congr 1
@@ -157,12 +192,12 @@ theorem absF_plRemove {d : Db} (hn : (ids d.pl).Nodup) (hpos : ∀ r ∈ d.pl, 0
   obtain ⟨r, hr, rfl⟩ := mem_cores.mp hk
   simp only [Function.comp, crateOf, core]
   have hmem : r.id ∈ ids d.pl := by simp only [ids, List.mem_map]; exact ⟨r, hr, rfl⟩
-  have hiff : r.id ∈ descendantIds d.pl c ↔ (⟨(cores d.pl).map crateOf⟩ : Forest.Forest).isAncestor c r.id = true := by
-    rw [mem_descendantIds]
+  have hiff : r.id ∈ descSet d c ↔ (⟨(cores d.pl).map crateOf⟩ : Forest.Forest).isAncestor c r.id = true := by
+    rw [mem_descSet]
     exact ⟨fun h => h.2, fun h => ⟨hmem, h⟩⟩
   by_cases h1 : r.id = c
   · simp [h1]
-  · by_cases h2 : r.id ∈ descendantIds d.pl c
+  · by_cases h2 : r.id ∈ descSet d c
     · have := hiff.mp h2
       simp [List.contains_cons, h1, h2, this]
     · have : (⟨(cores d.pl).map crateOf⟩ : Forest.Forest).isAncestor c r.id = false := by
@@ -623,17 +658,21 @@ theorem fstep_setParent {d : Db} (hW : Forest.Wf (absF d)) (c : Int) (p : Option
       | some q =>
         have hqc : q ≠ c := fun e => hpc (by rw [e])
         by_cases he : plExists d q = true
-        · by_cases hdesc : q ∈ descendantIds d.pl c
-          · refine .throws (exn "crate_invalid_parent") (by simp [step, hpc', hg, he, hdesc]) ?_
+        · obtain ⟨ds, hds, hmem⟩ := descendantIds_ok hW c
+          by_cases hdesc : q ∈ descSet d c
+          · have hq : q ∈ ds := (hmem q).mpr hdesc
+            refine .throws (exn "crate_invalid_parent") (by simp [step, hpc', hg, he, hds, hq]) ?_
             intro fop hfop
             simp only [forestOp, Option.some.injEq] at hfop
             subst hfop
             left
-            have := (mem_descendantIds.mp hdesc).2
+            have := (mem_descSet.mp hdesc).2
             exact spec_setParent_rej (Or.inr (Or.inl ⟨q, rfl, Or.inr (Or.inr this)⟩))
-          · have hdesc' : (descendantIds d.pl c).contains q = false := by simpa using hdesc
+          · have hdesc' : ds.contains q = false := by
+              have : q ∉ ds := fun h => hdesc ((hmem q).mp h)
+              simpa using this
             refine fstep_setParentCore hW hg ?_ ?_
-            · simp only [step, hpc', hg, he, hdesc', setParentCore, keyOf]
+            · simp only [step, hpc', hg, he, hds, hdesc', setParentCore, keyOf]
               rfl
             · intro q' hq'
               simp only [Option.some.injEq] at hq'
@@ -642,7 +681,7 @@ theorem fstep_setParent {d : Db} (hW : Forest.Wf (absF d)) (c : Int) (p : Option
               cases ha : (absF d).isAncestor c q with
               | false => rfl
               | true =>
-                exact absurd (mem_descendantIds.mpr ⟨plExists_iff.mp he, ha⟩) hdesc
+                exact absurd (mem_descSet.mpr ⟨plExists_iff.mp he, ha⟩) hdesc
         · have he' : plExists d q = false := by simpa using he
           refine .throws (exn "crate_deleted") (by simp [step, hpc', hg, he']) ?_
           intro fop hfop
@@ -654,11 +693,12 @@ theorem fstep_setParent {d : Db} (hW : Forest.Wf (absF d)) (c : Int) (p : Option
 theorem fstep_removeCrate {d : Db} (hW : Forest.Wf (absF d)) (c : Int) : FStep d (.removeCrate c) := by
   have hn : (ids d.pl).Nodup := by rw [← absF_ids]; exact hW.ids_nodup
   by_cases he : plExists d c = true
-  · have hstep : step d (.removeCrate c) = (plRemove d c, .ok none) := by simp [step, he]
+  · obtain ⟨ds, hds, hmem⟩ := descendantIds_ok hW c
+    have hstep : step d (.removeCrate c) = (plRemove d (c :: ds), .ok none) := by simp [step, he, hds]
     refine .okF none (.remove c) (by rw [hstep]) rfl ?_ (by simp [isCreate]) (by rw [hstep]; rfl)
     rw [hstep]
     simp only
-    rw [absF_plRemove hn (fun r hr => hW.id_pos (rowCrate r) (mem_crates_of_row hr)) (plExists_iff.mp he)]
+    rw [absF_plRemove hn (fun r hr => hW.id_pos (rowCrate r) (mem_crates_of_row hr)) (plExists_iff.mp he) (isGone_cons hmem)]
     exact spec_remove_acc _ (by rw [← plExists_eq_live]; exact he)
   · have he' : plExists d c = false := by simpa using he
     refine .throws .invalid_argument (by simp [step, he']) ?_
